@@ -15,6 +15,7 @@
   Statements over `[Scalar K]`, as the models.  Core Lean only.
 -/
 import Gama.Model.FullDenote
+import Gama.Lemmas.GsoTops
 namespace Gama.C04.Full
 open Gama Gama.Ls Gama.C04
 
@@ -219,13 +220,14 @@ theorem gsoSolve_reg (p : Problem K) (r : Reg) :
          else .ok (gsoPack p R)) := rfl
 
 /-- **gso, any defect**: whenever the solve succeeds for `r` and for `r'`, the residuals, `[pvv]`, the defect,
-    `lindep` and `cond` are the same.  PARTIAL: `q_bb` (the tops of the storage columns, which `icgs2` does not
-    touch) is missing — the model re-sorts the pointer-ordered columns into storage order (`mergeSort` on the storage
-    index of a permutation built by `movePtrs`); that this restores the tops needs the permutation/sortedness
-    argument, not done. -/
-theorem gso_indep_partial (p : Problem K) (r r' : Reg) (a a' : Answer K)
+    `lindep`, `cond` AND `q_bb` are the same.  FULL: `q_bb` reads the tops of the storage columns, which `icgs2`
+    does not touch — the model re-sorts the pointer-ordered columns into storage order (`mergeSort` on the storage
+    index of a permutation built by `movePtrs`); `icgs2_tops` (Lemmas/GsoTops.lean) proves that this restores the
+    tops, with no hypothesis on `lindep`. -/
+theorem gso_indep (p : Problem K) (r r' : Reg) (a a' : Answer K)
     (h : Ls.gsoSolve { p with reg := r } = .ok a) (h' : Ls.gsoSolve { p with reg := r' } = .ok a') :
-    a.r = a'.r ∧ a.rtr = a'.rtr ∧ a.defect = a'.defect ∧ a.lindep = a'.lindep ∧ a.cond = a'.cond := by
+    a.r = a'.r ∧ a.rtr = a'.rtr ∧ a.defect = a'.defect ∧ a.lindep = a'.lindep ∧ a.cond = a'.cond
+    ∧ a.qbb = a'.qbb := by
   rw [gsoSolve_reg] at h h'
   simp only at h h'
   split at h
@@ -238,8 +240,15 @@ theorem gso_indep_partial (p : Problem K) (r r' : Reg) (a a' : Answer K)
         · exact absurd h' (by simp)
         · injection h with h; injection h' with h'
           subst h; subst h'
-          simp only [gsoPack, icgs2_dep, icgs2_rhs_top]
-          exact ⟨trivial, trivial, trivial, trivial, trivial⟩
+          refine ⟨?_, ?_, ?_, ?_, ?_, ?_⟩ <;>
+            simp only [gsoPack, icgs2_dep, icgs2_rhs_top, icgs2_rowdot_top]
+
+/-- the statement of rounds 6–12 (without `q_bb`), kept for its users: a corollary of `gso_indep` -/
+theorem gso_indep_partial (p : Problem K) (r r' : Reg) (a a' : Answer K)
+    (h : Ls.gsoSolve { p with reg := r } = .ok a) (h' : Ls.gsoSolve { p with reg := r' } = .ok a') :
+    a.r = a'.r ∧ a.rtr = a'.rtr ∧ a.defect = a'.defect ∧ a.lindep = a'.lindep ∧ a.cond = a'.cond :=
+  let ⟨h1, h2, h3, h4, h5, _⟩ := gso_indep p r r' a a' h h'
+  ⟨h1, h2, h3, h4, h5⟩
 
 /-- **gso, defect 0**: the whole answer record is the same for EVERY regularisation (no condition on the list:
     `icgs2()` returns before it looks at `minx`) -/
@@ -363,7 +372,7 @@ theorem solver_defect_indep (alg : Ls.Alg) (halg : alg ≠ .env) (p : Problem K)
   cases alg with
   | env => exact absurd rfl halg
   | chol => exact (chol_indep p r r' a a' h h').2.2.1
-  | gso => exact (gso_indep_partial p r r' a a' h h').2.2.1
+  | gso => exact (gso_indep p r r' a a' h h').2.2.1
   | svd => exact (svd_indep p r r' a a' h h').1
 
 /-! ### the defect is at most the number of unknowns (`Inv.wf` of the symbolic input of a problem) -/
